@@ -50,7 +50,30 @@ var anchoredFiles = []string{
 func inventory(repo string) ([]site, error) {
 	var out []site
 	fset := token.NewFileSet()
-	for _, rel := range anchoredFiles {
+	// the anchored and entry-point files, plus every other non-test file of the packages a request passes through
+	// (so that a site in a new or so far unlisted file is an undischarged row too)
+	files := append([]string{}, anchoredFiles...)
+	seen := map[string]bool{}
+	for _, f := range files {
+		seen[f] = true
+	}
+	for _, dir := range []string{".", "graphql", "graphql/ast", "graphql/executor", "graphql/executor/internal/future", "graphql/parser", "graphql/scanner",
+		"graphql/schema", "graphql/schema/introspection", "graphql/token", "graphql/transport/graphqlws", "graphql/transport/graphqltransportws", "graphql/validator", "pagination"} {
+		ents, err := os.ReadDir(filepath.Join(repo, dir))
+		if err != nil {
+			continue
+		}
+		for _, e := range ents {
+			n := e.Name()
+			rel := filepath.ToSlash(filepath.Join(dir, n))
+			if e.IsDir() || !strings.HasSuffix(n, ".go") || strings.HasSuffix(n, "_test.go") || strings.HasPrefix(n, "verif_") || seen[rel] {
+				continue
+			}
+			seen[rel] = true
+			files = append(files, rel)
+		}
+	}
+	for _, rel := range files {
 		f, err := parser.ParseFile(fset, filepath.Join(repo, rel), nil, 0)
 		if err != nil {
 			return nil, err
